@@ -6,16 +6,16 @@ Require Import Bytes Show Res Tables.
 Import ListNotations.
 
 Definition or20 (c : byte) : byte := b_of (N.lor (n_of c) 32).
-(* utils.CaseInsensitiveCompare: a[i]|0x20 == b[i]|0x20 *)
+Definition to_upper (c : byte) : byte := tbl_get ToUpperTable c.
+Definition to_lower (c : byte) : byte := tbl_get ToLowerTable c.
+(* utils.CaseInsensitiveCompare: ToLowerTable[a[i]] == ToLowerTable[b[i]] *)
 Fixpoint ci_compare (a b : bs) : bool :=
   match a, b with
   | [], [] => true
-  | x :: a', y :: b' => Byte.eqb (or20 x) (or20 y) && ci_compare a' b'
+  | x :: a', y :: b' => Byte.eqb (to_lower x) (to_lower y) && ci_compare a' b'
   | _, _ => false
   end.
 
-Definition to_upper (c : byte) : byte := tbl_get ToUpperTable c.
-Definition to_lower (c : byte) : byte := tbl_get ToLowerTable c.
 (* utils.NormalizeHeaderKey (normalising enabled) *)
 Fixpoint norm_rest (s : bs) : bs :=
   match s with
